@@ -32,7 +32,13 @@ def eval_doc(args):
             elif e0 != e1: problems.append(f'errors differ (thin_lazy={thin}): eager {e0[:2]} lazy {e1[:2]}')
         d0 = s.decode(doc, validation='lax')[0]
         d1 = docgen.materialise(s.decode(xmlschema.XMLResource(doc, lazy=1), validation='lax')[0])
-        if d0 != d1: problems.append(f'data differs: {str(d0)[:80]} vs {str(d1)[:80]}')
+        if d0 != d1:
+            def strip(d, lvl=0):
+                if isinstance(d, dict): return {k: strip(v, lvl + 1) for k, v in d.items() if not (lvl >= 1 and k.startswith('@xmlns'))}
+                if isinstance(d, list): return [strip(v, lvl) for v in d]
+                return d
+            if strip(d0) == strip(d1): reported.append('KNOWN:C06-lazy-decode-drops-nested-xmlns')
+            else: problems.append(f'data differs: {str(d0)[:80]} vs {str(d1)[:80]}')
         full = xmlschema.XMLResource(doc); lazy = xmlschema.XMLResource(doc, lazy=1, thin_lazy=False)
         # the order in which a lazy resource yields the descendants of a chunk is pinned by the test-suite (reverse end order), so the
         # property's "same elements, text and in-scope namespaces" is read as equality of multisets; the order difference is reported only
@@ -51,14 +57,24 @@ def run(tier, seed, open_findings):
     for i in range(n):
         d = docgen.gen(rng, rng.randrange(1, 5))
         docs.append(docgen.faulty(rng, d, 1) if i % 3 else d)
+    # nested namespace declarations (scopes that close inside the document): the iteration stream compares in-scope namespaces
+    for i in range(n // 4):
+        d = docgen.gen(rng, rng.randrange(1, 4))
+        d = d.replace('<t:sub ', '<t:sub xmlns:x%d="urn:x" ' % i, 1).replace('<t:item ', '<t:item xmlns:y="urn:y" ', 1).replace('<t:name>', '<t:name xmlns:z="urn:z">', 1)
+        docs.append(d)
     jobs = [(ver, d) for d in docs for ver in ('1.0', '1.1')]
     res = pmap(eval_doc, jobs)
     fails = [dict(case=dict(doc=r['doc'], ver=r['ver']), observed=r['problems'], required='lazy = eager') for r in res if r['problems']]
-    rep = sum(1 for r in res if r['reported'])
-    return [result('C06.lazy_equals_eager', f'{len(docs)} generated documents x 2 classes x (errors thin/non-thin, data, iteration stream)', len(jobs) * 4, fails,
+    known = {}
+    for r in res:
+        if 'KNOWN:C06-lazy-decode-drops-nested-xmlns' in r['reported']:
+            if 'C06-lazy-decode-drops-nested-xmlns' in open_findings: known['C06-lazy-decode-drops-nested-xmlns'] = known.get('C06-lazy-decode-drops-nested-xmlns', 0) + 1
+            else: fails.append(dict(case=dict(doc=r['doc'], ver=r['ver']), observed='lazy data lacks the @xmlns keys of nested elements', required='lazy = eager'))
+    rep = sum(1 for r in res if any(not x.startswith('KNOWN') for x in r['reported']))
+    return [result('C06.lazy_equals_eager', f'{len(docs)} generated documents x 2 classes x (errors thin/non-thin, data, iteration stream)', len(jobs) * 4, fails, known=known,
                    samples=[dict(doc=docs[1][:200])], reported={'depth-2 differences (reported only)': rep}, distinct=len(set(docs)) * 2)]
 
 
 def replay(check_name, case):
     r = eval_doc((case['ver'], case['doc']))
-    return dict(ok=not r['problems'], observed=r['problems'], required='lazy = eager')
+    return dict(ok=not r['problems'] and not any(x.startswith('KNOWN') for x in r['reported']), observed=r['problems'] or r['reported'], required='lazy = eager')
